@@ -359,7 +359,7 @@ def r3_dirty(prog, rep: Report, fam: Family, mut: Cls, rec: Cls):
 
 
 def record_save_check(prog, rep: Report, rule: str, rec: Cls, w: Func, lines: str):
-    rs = prog.method(rec, "save")
+    rs = prog.method_raw(rec, "save")
     rep.fn(rs)
     calls = [c for c in calls_in(rs.node) if isinstance(c.func, ast.Attribute) and c.func.attr == w.name]
     ok, why = False, "record save does not call the writer once"
@@ -394,7 +394,7 @@ def r4_save(prog, rep: Report, fam: Family, mut: Cls, rec: Cls, lines: str):
     rep.rule("C12.R4", "save writes the current view: save passes the object's own iteration (plain) or an index-aligned walk of "
              "the table resolving offsets through the raw reader (record) to the writer, which writes each line once with "
              "end=<line_ending> to the output, opened 'w' only when it is a path", floor=3)
-    sv = prog.method(mut, "save")
+    sv = prog.method_raw(mut, "save")
     w = writer_method(prog, mut)
     rep.fn(sv, w)
     out, le = sv.params[1], sv.params[2]
@@ -528,7 +528,7 @@ def index_guards(prog, rep: Report, mut: Cls, rule: str):
 
 def writer_method(prog, mut: Cls) -> Func:
     """the method save() hands (self, out, line_ending) to"""
-    sv = prog.method(mut, "save")
+    sv = prog.method_raw(mut, "save")
     for c in calls_in(sv.node):
         if isinstance(c.func, ast.Attribute) and isinstance(c.func.value, ast.Name) and c.func.value.id == sv.self_name \
                 and len(c.args) == 3 and src(c.args[0]) == sv.self_name:
